@@ -5,7 +5,7 @@
 Require Extraction.
 Require ExtrOcamlBasic.
 From Sameold Require Import Base.Bytes Model.Header Model.Combiner Model.IssueTime Model.Events
-  Model.Framer Model.Squelch Model.Assembler Model.Receiver.
+  Model.Framer Model.Squelch Model.Assembler Model.Receiver Model.ResetShape.
 Extraction Language OCaml.
 Set Extraction KeepSingleton.
 Extraction "Extract/model.ml"
@@ -27,4 +27,5 @@ Extraction "Extract/model.ml"
   Squelch.sq_input Squelch.sq_init Squelch.sq_end Squelch.sq_set_lock
   Assembler.asm_init Assembler.asm_assemble Assembler.asm_idle
   Receiver.rx_init Receiver.step_item Receiver.uses_eq Receiver.skip Receiver.pop_event
-  Receiver.process Receiver.run_core.
+  Receiver.process Receiver.run_core
+  ResetShape.receiver_reset ResetShape.fresh ResetShape.config_of.
